@@ -137,9 +137,9 @@ theorem filesExt_getOrCreateWriter (c : Cfg) (p : Proc) (i : Inst) (t : Topic) :
   · exact filesExt_getNextAvailableBlock c p i
 
 /-- a single append whose entry write fails / is never reached writes no entry -/
-theorem filesExt_writerWrite_fault (c : Cfg) (p : Proc) (i : Inst) (t : Topic) (w : Writer) (pay : Pay) :
-    FilesExt p (writerWrite c p i t w pay (some ⟨0, 0⟩)).1 := by
-  unfold writerWrite
+theorem filesExt_writerWriteCore_fault (c : Cfg) (p : Proc) (i : Inst) (t : Topic) (w : Writer) (pay : Pay) :
+    FilesExt p (writerWriteCore c p i t w pay (some ⟨0, 0⟩)).1 := by
+  unfold writerWriteCore
   by_cases hb : w.batching = true
   · simp only [hb, if_true]; exact filesExt_refl p
   · simp only [hb, if_false, Bool.false_eq_true]
@@ -158,6 +158,13 @@ theorem filesExt_writerWrite_fault (c : Cfg) (p : Proc) (i : Inst) (t : Topic) (
         exact filesExt_trans hs h2
     · simp only [hr, if_false]
       exact filesExt_refl p
+
+theorem filesExt_writerWrite_fault (c : Cfg) (p : Proc) (i : Inst) (t : Topic) (w : Writer) (pay : Pay) :
+    FilesExt p (writerWrite c p i t w pay (some ⟨0, 0⟩)).1 := by
+  unfold writerWrite
+  split
+  · exact filesExt_refl p
+  · exact filesExt_writerWriteCore_fault c p i t w pay
 
 theorem filesExt_appendForTopic_fault (c : Cfg) (p : Proc) (i : Inst) (t : Topic) (pay : Pay) :
     FilesExt p (appendForTopic c p i t pay (some ⟨0, 0⟩)).1 := by
